@@ -1,5 +1,5 @@
 (* C19 - proofs about ModelScope.v *)
-From Coq Require Import Lia.
+From Coq Require Import Lia Sorted.
 From BS Require Import Model.Base.
 From W Require Import ModelScope.
 Local Open Scope N_scope.
@@ -239,12 +239,130 @@ Proof.
 Qed.
 
 (* ------------------------------------------------------------------ *)
+(** * The breadth-first order is non-decreasing in depth                *)
+
+Definition dle (a b : vnode) : Prop := (v_depth a <= v_depth b)%nat.
+Definition mono (l : list vnode) : Prop := StronglySorted dle l.
+
+Lemma SS_app_intro : forall {A} (R : A -> A -> Prop) a b,
+  StronglySorted R a -> StronglySorted R b -> (forall x y, In x a -> In y b -> R x y) ->
+  StronglySorted R (a ++ b).
+Proof.
+  intros A R a. induction a as [|x t IH]; intros b Sa Sb H; [exact Sb|].
+  cbn [app]. inversion Sa; subst. constructor.
+  - apply IH; [assumption|assumption|]. intros u v Iu Iv. apply H; [right; exact Iu|exact Iv].
+  - apply Forall_forall. intros y Iy. apply in_app_iff in Iy. destruct Iy as [Iy | Iy].
+    + rewrite Forall_forall in H3. apply H3. exact Iy.
+    + apply H; [left; reflexivity|exact Iy].
+Qed.
+
+Lemma SS_app_inv : forall {A} (R : A -> A -> Prop) l1 l2,
+  StronglySorted R (l1 ++ l2) -> forall x y, In x l1 -> In y l2 -> R x y.
+Proof.
+  intros A R l1. induction l1 as [|a t IH]; intros l2 S x y Hx Hy; [destruct Hx|].
+  cbn [app] in S. inversion S; subst. destruct Hx as [E | Hx].
+  - subst a. rewrite Forall_forall in H2. apply H2. apply in_app_iff. right. exact Hy.
+  - eapply IH; eassumption.
+Qed.
+
+Lemma SS_filter : forall {A} (R : A -> A -> Prop) (p : A -> bool) l,
+  StronglySorted R l -> StronglySorted R (filter p l).
+Proof.
+  intros A R p l S. induction S as [|x t S IH Hall]; [constructor|].
+  cbn [filter]. destruct (p x); [|exact IH]. constructor; [exact IH|].
+  rewrite Forall_forall in *. intros y Iy. apply filter_In in Iy. apply Hall. tauto.
+Qed.
+
+Lemma SS_const : forall (l : list vnode) k, (forall x, In x l -> v_depth x = k) -> mono l.
+Proof.
+  induction l as [|x t IH]; intros k H; [constructor|]. constructor.
+  - apply (IH k). intros y Iy. apply H. right. exact Iy.
+  - apply Forall_forall. intros y Iy. unfold dle. rewrite (H x), (H y); [lia|right; exact Iy|left; reflexivity].
+Qed.
+
+Lemma child_nodes_depth : forall sc n x, In x (child_nodes sc n) -> v_depth x = S (v_depth n).
+Proof. intros sc n x H. apply in_child_nodes in H. destruct H as [y [_ E]]. subst x. reflexivity. Qed.
+
+(* queue invariant: sorted by depth, all depths within one level of each other *)
+Definition window (q : list vnode) : Prop :=
+  forall x y, In x q -> In y q -> (v_depth y <= S (v_depth x))%nat.
+
+Lemma bfs_mono : forall sc fuel q out,
+  mono q -> window q -> bfs sc fuel q = Ok out ->
+  mono out /\ forall n q', q = n :: q' -> forall y, In y out -> (S (v_depth n) <= v_depth y)%nat.
+Proof.
+  intros sc fuel. induction fuel as [|f IH]; intros q out Mq Wq H.
+  - destruct q as [|n q]; [|discriminate]. cbn in H. inversion H; subst.
+    split; [constructor|]. intros n q' E. discriminate.
+  - destruct q as [|n q].
+    + cbn in H. inversion H; subst. split; [constructor|]. intros n q' E. discriminate.
+    + cbn [bfs] in H. destruct (bfs sc f (q ++ child_nodes sc n)) as [r| | |] eqn:R; try discriminate.
+      cbn [bind] in H. inversion H; subst out. clear H.
+      inversion Mq as [|? ? Mq' Hn]; subst. rewrite Forall_forall in Hn.
+      assert (Mq2 : mono (q ++ child_nodes sc n)).
+      { apply SS_app_intro; [exact Mq'| |].
+        - apply (SS_const _ (S (v_depth n))). intros x Ix. eapply child_nodes_depth; exact Ix.
+        - intros x y Ix Iy. unfold dle. rewrite (child_nodes_depth _ _ _ Iy).
+          apply (Wq n x); [left; reflexivity|right; exact Ix]. }
+      assert (Wq2 : window (q ++ child_nodes sc n)).
+      { intros x y Ix Iy. apply in_app_iff in Ix. apply in_app_iff in Iy.
+        assert (Ux : (v_depth n <= v_depth x)%nat).
+        { destruct Ix as [Ix | Ix]; [apply Hn; exact Ix|rewrite (child_nodes_depth _ _ _ Ix); lia]. }
+        assert (Uy : (v_depth y <= S (v_depth n))%nat).
+        { destruct Iy as [Iy | Iy]; [apply (Wq n y); [left; reflexivity|right; exact Iy]
+                                    |rewrite (child_nodes_depth _ _ _ Iy); lia]. }
+        lia. }
+      destruct (IH _ _ Mq2 Wq2 R) as [Mr Lr].
+      assert (Low : forall y, In y r -> (S (v_depth n) <= v_depth y)%nat).
+      { intros y Iy. destruct (q ++ child_nodes sc n) as [|m rest] eqn:E.
+        - destruct f; cbn in R; inversion R; subst r; destruct Iy.
+        - pose proof (Lr m rest eq_refl y Iy) as L.
+          assert (Im : In m (q ++ child_nodes sc n)) by (rewrite E; left; reflexivity).
+          apply in_app_iff in Im. destruct Im as [Im | Im];
+            [specialize (Hn m Im); unfold dle in Hn; lia|rewrite (child_nodes_depth _ _ _ Im) in L; lia]. }
+      split.
+      * apply SS_app_intro; [|exact Mr|].
+        -- apply (SS_const _ (S (v_depth n))). intros x Ix. eapply child_nodes_depth; exact Ix.
+        -- intros x y Ix Iy. unfold dle. rewrite (child_nodes_depth _ _ _ Ix). apply Low. exact Iy.
+      * intros n0 q0 E y Iy. inversion E; subst n0 q0. apply in_app_iff in Iy. destruct Iy as [Iy | Iy].
+        -- rewrite (child_nodes_depth _ _ _ Iy). lia.
+        -- apply Low. exact Iy.
+Qed.
+
+(* the callback sees the DIEs in order of non-decreasing depth *)
+Theorem visit_mono : forall sc root l, visit sc root = Ok l -> mono l.
+Proof.
+  intros sc root l H. unfold visit in H.
+  assert (M0 : mono [mk_vnode O None root]).
+  { apply (SS_const _ O). intros x Ix. cbn [In] in Ix. destruct Ix as [E | []]. subst x. reflexivity. }
+  assert (W0 : window [mk_vnode O None root]).
+  { intros x y Ix Iy. cbn [In] in Ix, Iy. destruct Ix as [Ex | []]. destruct Iy as [Ey | []]. subst. lia. }
+  destruct (bfs_mono sc _ _ _ M0 W0 H) as [M _]. exact M.
+Qed.
+
+(* ------------------------------------------------------------------ *)
 (** * `var NAME` and shadowing                                          *)
 
-Lemma find_filter : forall {A} (p : A -> bool) l, find p l = hd_error (filter p l).
+Lemma last_opt_some : forall {A} (l : list A) x, last_opt l = Some x -> exists l', l = l' ++ [x].
 Proof.
-  intros A p. induction l as [|x t IH]; [reflexivity|]. cbn [find filter].
-  destruct (p x); [reflexivity|exact IH].
+  intros A l x H. unfold last_opt in H. destruct (rev l) as [|y t] eqn:E; [discriminate|].
+  inversion H; subst y. exists (rev t). rewrite <- (rev_involutive l), E. reflexivity.
+Qed.
+
+Lemma last_opt_none : forall {A} (l : list A), last_opt l = None -> l = [].
+Proof.
+  intros A l H. unfold last_opt in H. destruct (rev l) as [|y t] eqn:E; [|discriminate].
+  rewrite <- (rev_involutive l), E. reflexivity.
+Qed.
+
+(* the last element of a depth-sorted list is a deepest one *)
+Lemma last_opt_deepest : forall l v, mono l -> last_opt l = Some v ->
+  In v l /\ forall v', In v' l -> (v_depth v' <= v_depth v)%nat.
+Proof.
+  intros l v M H. apply last_opt_some in H. destruct H as [l' E]. subst l. split.
+  - apply in_app_iff. right. left. reflexivity.
+  - intros v' I. apply in_app_iff in I. destruct I as [I | [E | []]]; [|subst; lia].
+    apply (SS_app_inv dle l' [v] M v' v I). left. reflexivity.
 Qed.
 
 (* the variable returned is a live binding of that name; nothing is returned only if there
@@ -259,41 +377,68 @@ Proof.
   intros root pc name. unfold local_variable.
   destruct (visit_desc is_scope_model root) as [l [Hl Hin]]. rewrite Hl. cbn [bind].
   eexists. split; [reflexivity|].
-  destruct (find (candidate pc name) l) as [v|] eqn:F.
-  - apply find_some in F. destruct F as [Iv Cv]. split; [apply Hin; exact Iv|exact Cv].
-  - intros v Hd. apply Hin in Hd. apply (find_none _ _ F) in Hd. exact Hd.
+  destruct (last_opt (filter (candidate pc name) l)) as [v|] eqn:F.
+  - apply last_opt_some in F. destruct F as [l' E].
+    assert (I : In v (filter (candidate pc name) l)) by (rewrite E; apply in_app_iff; right; left; reflexivity).
+    apply filter_In in I. destruct I as [Iv Cv]. split; [apply Hin; exact Iv|exact Cv].
+  - apply last_opt_none in F. intros v Hd. apply Hin in Hd.
+    destruct (candidate pc name v) eqn:C; [|reflexivity].
+    assert (I : In v (filter (candidate pc name) l)) by (apply filter_In; split; assumption).
+    rewrite F in I. destruct I.
 Qed.
 
-(* exactly one live binding of the name *)
-Definition single_candidate (root : die) (pc name : N) : bool :=
-  match visit is_scope_model root with
-  | Ok vs => Nat.eqb (length (filter (candidate pc name) vs)) 1
-  | _ => false
-  end.
-
-(* FULL STATEMENT (false, see shadow_refuted):
-     forall root pc name v, local_variable root pc name = Ok (Some v) -> innermost root pc name v.
-   PROVED when the name has a single live binding (no shadowing in effect at pc). *)
-Theorem shadow_partial : forall root pc name,
-  no_inlined root = true -> single_candidate root pc name = true ->
-  exists v, local_variable root pc name = Ok (Some v) /\ innermost root pc name v.
+(* SHADOWING: `var NAME` returns an innermost live binding of the name (no live binding of
+   that name lies deeper), and nothing only when no binding of the name is in scope.
+   FULL STATEMENT = this without [no_inlined root] (false only through scope_refuted: an
+   inlined subroutine's variable is attributed to the caller's block). *)
+Theorem shadow_partial : forall root pc name, no_inlined root = true ->
+  exists r, local_variable root pc name = Ok r /\
+    match r with
+    | Some v => innermost root pc name v
+    | None => forall v, in_scope root pc v -> name_is (v_die v) name = false
+    end.
 Proof.
-  intros root pc name Hni Hs. unfold single_candidate in Hs. unfold local_variable.
+  intros root pc name Hni. unfold local_variable.
   destruct (visit_desc is_scope_spec root) as [l [Hl Hin]].
-  rewrite (visit_same root Hni) in Hs |- *. rewrite Hl in Hs |- *. cbn [bind].
-  rewrite find_filter.
-  destruct (filter (candidate pc name) l) as [|v [|w t]] eqn:F; cbn [length] in Hs; try discriminate.
-  exists v. split; [reflexivity|].
-  assert (Iv : In v (filter (candidate pc name) l)) by (rewrite F; left; reflexivity).
-  apply filter_In in Iv. destruct Iv as [Iv Cv]. unfold candidate in Cv.
-  apply andb_true_iff in Cv. destruct Cv as [Cv Cval]. apply andb_true_iff in Cv. destruct Cv as [Cvar Cname].
-  split; [|split].
-  - unfold in_scope. split; [apply Hin; exact Iv|split; assumption].
-  - exact Cname.
-  - intros v' [Hd [Hvar Hval]] Hname.
-    assert (Iv' : In v' (filter (candidate pc name) l)).
-    { apply filter_In. split; [apply Hin; exact Hd|]. unfold candidate. rewrite Hvar, Hname, Hval. reflexivity. }
-    rewrite F in Iv'. destruct Iv' as [E | []]. subst v'. lia.
+  rewrite (visit_same root Hni), Hl. cbn [bind]. eexists. split; [reflexivity|].
+  assert (M : mono (filter (candidate pc name) l)).
+  { apply SS_filter. eapply visit_mono. exact Hl. }
+  assert (Cand : forall v, In v (filter (candidate pc name) l) <->
+                           in_scope root pc v /\ name_is (v_die v) name = true).
+  { intros v. rewrite filter_In, Hin. unfold in_scope, candidate. rewrite !andb_true_iff. tauto. }
+  destruct (last_opt (filter (candidate pc name) l)) as [v|] eqn:F.
+  - destruct (last_opt_deepest _ _ M F) as [Iv Max]. apply Cand in Iv. destruct Iv as [Sv Nv].
+    split; [exact Sv|]. split; [exact Nv|]. intros v' Sv' Nv'. apply Max. apply Cand. tauto.
+  - apply last_opt_none in F. intros v Sv. destruct (name_is (v_die v) name) eqn:Nv; [|reflexivity].
+    assert (I : In v (filter (candidate pc name) l)) by (apply Cand; tauto). rewrite F in I. destruct I.
+Qed.
+
+(* the computable specification (deepest live binding, the later one among equally deep
+   ones) is what the code returns *)
+Lemma deepest_sorted : forall l best, mono l ->
+  (forall b y, best = Some b -> In y l -> (v_depth b <= v_depth y)%nat) ->
+  deepest best l = match rev l with [] => best | x :: _ => Some x end.
+Proof.
+  induction l as [|v t IH]; intros best M Hb; [reflexivity|].
+  cbn [deepest]. inversion M; subst. rewrite Forall_forall in H2.
+  assert (E : match best with
+              | Some b => if Nat.leb (v_depth b) (v_depth v) then Some v else best
+              | None => Some v end = Some v).
+  { destruct best as [b|]; [|reflexivity].
+    assert (L : (v_depth b <= v_depth v)%nat) by (apply (Hb b v eq_refl); left; reflexivity).
+    apply Nat.leb_le in L. rewrite L. reflexivity. }
+  rewrite E. rewrite IH; [|assumption|].
+  - cbn [rev]. destruct (rev t) as [|x r]; reflexivity.
+  - intros b y Eb Iy. inversion Eb; subst b. apply H2. exact Iy.
+Qed.
+
+Theorem lookup_exact_partial : forall root pc name, no_inlined root = true ->
+  local_variable root pc name = spec_lookup root pc name.
+Proof.
+  intros root pc name Hni. unfold local_variable, spec_lookup. rewrite (visit_same root Hni).
+  destruct (visit is_scope_spec root) as [l| | |] eqn:Hl; try reflexivity. cbn [bind]. f_equal.
+  rewrite deepest_sorted; [reflexivity| |intros b y E; discriminate].
+  apply SS_filter. eapply visit_mono. exact Hl.
 Qed.
 
 (* fn f() { let x = ..; { let x = ..; <pc> } }  (rustc opens a lexical block at every `let`) *)
@@ -304,67 +449,58 @@ Definition tree_shadow : die :=
         Die 4 KBlock None [(4128, 4320)] LocNone
           [Die 5 KVar (Some 7) [] (LocExpr 2) []]]].
 
-Example shadow_partial_applies :
-  no_inlined tree_shadow = true /\ single_candidate tree_shadow 4120 7 = true.
-Proof. split; reflexivity. Qed.
+(* with both bindings live the inner one (DIE 5) is returned; only the outer one is live at
+   4120 and is returned there *)
+Example shadow_applies :
+  no_inlined tree_shadow = true /\
+  match local_variable tree_shadow 4144 7 with Ok (Some v) => d_off (v_die v) | _ => 0 end = 5 /\
+  match local_variable tree_shadow 4120 7 with Ok (Some v) => d_off (v_die v) | _ => 0 end = 3.
+Proof. vm_compute. repeat split; reflexivity. Qed.
 
-(* with both bindings live the OUTER one is returned: the traversal is breadth first, the
-   first live match is the shallowest *)
-Theorem shadow_refuted : exists root pc name v,
-  no_inlined root = true /\ local_variable root pc name = Ok (Some v) /\
-  d_off (v_die v) = 3 /\ ~ innermost root pc name v.
-Proof.
-  exists tree_shadow, 4144, 7. eexists.
-  split; [reflexivity|]. split; [vm_compute; reflexivity|]. split; [reflexivity|].
-  intros [_ [_ Hmax]].
-  destruct (spec_locals_in_scope tree_shadow 4144) as [l [Hl Hin]].
-  vm_compute in Hl. inversion Hl; subst l.
-  specialize (Hmax (mk_vnode 3 (Some [(4128, 4320)]) (Die 5 KVar (Some 7) [] (LocExpr 2) []))).
-  cbn [v_depth] in Hmax.
-  assert (3 <= 2)%nat; [|lia]. apply Hmax; [|reflexivity].
-  apply Hin. right. left. reflexivity.
-Qed.
+(* _old (before b2e635c, first match of the breadth-first walk): shadow_refuted :
+     on tree_shadow, pc 4144, name 7 the model answered DIE 3 (depth 2, the OUTER x) and
+     ~ innermost held for it; shadow_partial needed `single_candidate root pc name = true`.
+   Confirmed on the real debugger (`var x` printed 1 instead of 2), repaired. *)
 
 (* ------------------------------------------------------------------ *)
 (** * Location lists                                                    *)
 
-(* no entry ends exactly at pc, no undecodable entry *)
-Definition no_end_at (pc : N) (l : list lentry) : bool :=
-  forallb (fun e => match e with LEntry _ en _ => negb (en =? pc) | LBad => false end) l.
+(* every entry could be decoded (an undecodable entry is outside the specification) *)
+Definition no_bad (l : list lentry) : bool :=
+  forallb (fun e => match e with LEntry _ _ _ => true | LBad => false end) l.
 
-(* FULL STATEMENT (false, see loclist_refuted):
-     forall pc l, loclist_select pc l = spec_loclist_select pc l.
-   PROVED when pc is not the (exclusive) end of any entry. *)
-Theorem loclist_partial : forall pc l, no_end_at pc l = true ->
+(* the entry selected is the one whose half-open range contains pc *)
+Theorem loclist_exact : forall pc l, no_bad l = true ->
   loclist_select pc l = spec_loclist_select pc l.
 Proof.
   intros pc l H. unfold loclist_select, spec_loclist_select.
   assert (E : find (lentry_match pc) l = find (lentry_in pc) l).
-  { induction l as [|e t IH]; [reflexivity|]. cbn [no_end_at forallb] in H.
+  { induction l as [|e t IH]; [reflexivity|]. cbn [no_bad forallb] in H.
     apply andb_true_iff in H. destruct H as [He Ht]. cbn [find].
     destruct e as [b en d|]; [|discriminate]. cbn [lentry_match lentry_in].
-    apply negb_true_iff, N.eqb_neq in He.
-    assert (Q : (pc <=? en) = (pc <? en)).
-    { destruct (N.leb_spec pc en), (N.ltb_spec pc en); try reflexivity; lia. }
-    rewrite Q. destruct ((b <=? pc) && (pc <? en)); [reflexivity|]. apply IH. exact Ht. }
+    destruct ((b <=? pc) && (pc <? en)); [reflexivity|]. apply IH. exact Ht. }
   rewrite E. destruct (find (lentry_in pc) l) as [[b en d|]|]; reflexivity.
 Qed.
 
-Theorem loc_select_partial : forall pc loc,
-  match loc with LocList l => no_end_at pc l = true | _ => True end ->
+Theorem loc_select_exact : forall pc loc,
+  match loc with LocList l => no_bad l = true | _ => True end ->
   loc_select pc loc = spec_loc_select pc loc.
-Proof. intros pc [| e | l |] H; try reflexivity. cbn [loc_select spec_loc_select]. apply loclist_partial. exact H. Qed.
+Proof. intros pc [| e | l |] H; try reflexivity. cbn [loc_select spec_loc_select]. apply loclist_exact. exact H. Qed.
 
-Example loclist_partial_applies : no_end_at 40 [LEntry 16 32 1; LEntry 32 48 2] = true.
+(* x lives in register 1 over [16,32) and in register 2 over [32,48): at pc = 32 the second
+   entry is chosen; one past the last entry there is no location *)
+Example loclist_applies :
+  no_bad [LEntry 16 32 1; LEntry 32 48 2] = true /\
+  loclist_select 32 [LEntry 16 32 1; LEntry 32 48 2] = Some 2 /\
+  loclist_select 32 [LEntry 16 32 1] = None.
+Proof. repeat split; reflexivity. Qed.
+
+(* an undecodable entry before the matching one hides it (`Err(_) => true` ... `.ok()?`) *)
+Example loclist_bad_entry : loclist_select 40 [LBad; LEntry 32 48 2] = None.
 Proof. reflexivity. Qed.
 
-(* x lives in register 1 over [16,32) and in register 2 over [32,48): at pc = 32 the
-   first (stale) entry is chosen *)
-Theorem loclist_refuted : exists pc l,
-  loclist_select pc l = Some 1 /\ spec_loclist_select pc l = Some 2.
-Proof. exists 32, [LEntry 16 32 1; LEntry 32 48 2]. split; reflexivity. Qed.
-
-(* one past the end of the last entry a location is still produced *)
-Theorem loclist_past_end_refuted : exists pc l,
-  loclist_select pc l = Some 1 /\ spec_loclist_select pc l = None.
-Proof. exists 32, [LEntry 16 32 1]. split; reflexivity. Qed.
+(* _old (before 723bd36, `range.end >= pc`): loclist_refuted :
+     loclist_select 32 [LEntry 16 32 1; LEntry 32 48 2] = Some 1 (stale register), spec Some 2;
+   loclist_past_end_refuted : loclist_select 32 [LEntry 16 32 1] = Some 1, spec None;
+   loclist_partial needed `no_end_at pc l = true`.  Confirmed on the real debugger (3 of 9
+   sampled stops at -O1), repaired. *)
